@@ -446,6 +446,9 @@ func (l *Lexer) shiftAttribute() []byte {
 				l.moveTemplate()
 			}
 			l.hasTmpl = true
+			if c = l.r.Peek(0); c != '/' || l.r.Peek(1) != '>' {
+				l.moveUnquotedAttrVal() // the value continues behind the template
+			}
 		} else if delim == '"' || delim == '\'' { // attribute value single- and double-quoted state
 			l.r.Move(1)
 			for {
@@ -468,12 +471,7 @@ func (l *Lexer) shiftAttribute() []byte {
 				}
 			}
 		} else { // attribute value unquoted state
-			for {
-				if c := l.r.Peek(0); c == ' ' || c == '>' || c == '\t' || c == '\n' || c == '\r' || c == '\f' || c == 0 && l.r.Err() != nil {
-					break
-				}
-				l.r.Move(1)
-			}
+			l.moveUnquotedAttrVal()
 		}
 		l.attrVal = l.r.Lexeme()[attrPos:]
 	} else {
@@ -492,6 +490,20 @@ func (l *Lexer) shiftAttribute() []byte {
 		l.text = parse.ToLower(l.text)
 	}
 	return l.r.Shift()
+}
+
+func (l *Lexer) moveUnquotedAttrVal() {
+	for {
+		if 0 < len(l.tmplBegin) && l.at(l.tmplBegin...) {
+			l.r.Move(len(l.tmplBegin))
+			l.moveTemplate()
+			l.hasTmpl = true
+			continue
+		} else if c := l.r.Peek(0); c == ' ' || c == '>' || c == '\t' || c == '\n' || c == '\r' || c == '\f' || c == 0 && l.r.Err() != nil {
+			break
+		}
+		l.r.Move(1)
+	}
 }
 
 func (l *Lexer) shiftEndTag() []byte {
